@@ -178,16 +178,25 @@ WifCheck(F, key, g, net, wt) ==
             ELSE IF both /\ ~IsB58Of(g.wifprv, prvB.val) THEN Verdict("xprv-serialization", <<>>, <<B58Enc(prvB.val)>>)
             ELSE Good
 
+(* deviation sets under which a disagreement may be explained: the deviation of uncompressed parent objects alone, *)
+(* the deviations of the path notation alone, all together                                                         *)
+DevSets == <<{DevUncomp}, AllDevs \ {DevUncomp}, AllDevs>>
+
 JPath(r) ==
     LET F     == r.facts
         c0    == Chain(F, r, {})
-        c1    == Chain(F, r, AllDevs)
-        cand  == c1.plan.fired # {} /\ c1.plan.ok /\ r.got.ok          \* some deviation applies to this path
-        needs == c0.needs \o (IF cand THEN c1.needs ELSE <<>>)
+        cs    == [i \in 1..Len(DevSets) |-> Chain(F, r, DevSets[i])]
+        \* some deviation of the set applies to this path
+        cand(i) == cs[i].plan.fired # {} /\ cs[i].plan.ok /\ r.got.ok
+        needs == c0.needs \o Concat([i \in 1..Len(DevSets) |-> IF cand(i) THEN cs[i].needs ELSE <<>>])
+        hit   == {i \in 1..Len(DevSets) : cand(i) /\ cs[i].v.c = ""}
     IN IF F = <<>> THEN Ask(Prefetch(r) \o needs)
        ELSE IF needs # <<>> THEN Ask(needs)
        ELSE IF c0.v.c = "" THEN (IF c0.last.st = "ok" /\ r.got.ok THEN WifCheck(F, c0.last.val, r.got, EffNet(r), r.wt) ELSE Good)
-       ELSE [Verdict(c0.v.c, IF cand /\ c1.v.c = "" THEN SelectSeq(DevOrder, LAMBDA x : x \in c1.plan.fired) ELSE <<>>,
+       ELSE [Verdict(c0.v.c,
+                     IF hit # {} THEN LET i == CHOOSE i \in hit : \A k \in hit : i <= k
+                                      IN SelectSeq(DevOrder, LAMBDA x : x \in cs[i].plan.fired)
+                     ELSE <<>>,
                      IF c0.last.st = "ok" THEN Flat(c0.last.val) ELSE <<>>)
              EXCEPT !.at = c0.v.at]
 
